@@ -369,7 +369,26 @@ func pkgFunctions(p *Prog, sp *ssa.Package) []*ssa.Function {
 
 // mutatedParams: indices of parameters whose pointee a function may write
 // (store / append / copy through a value derived from the parameter).
+var (
+	mutMemo   = map[*ssa.Function]map[int]bool{}
+	mutActive = map[*ssa.Function]bool{}
+)
+
 func mutatedParams(fn *ssa.Function) map[int]bool {
+	if m, ok := mutMemo[fn]; ok {
+		return m
+	}
+	if mutActive[fn] {
+		return map[int]bool{} // recursion: decided by the outer call
+	}
+	mutActive[fn] = true
+	m := mutatedParams1(fn)
+	delete(mutActive, fn)
+	mutMemo[fn] = m
+	return m
+}
+
+func mutatedParams1(fn *ssa.Function) map[int]bool {
 	der := map[ssa.Value]int{}
 	for i, prm := range fn.Params {
 		der[prm] = i
@@ -393,6 +412,18 @@ func mutatedParams(fn *ssa.Function) map[int]bool {
 					src = x.X
 				case *ssa.FieldAddr:
 					src = x.X
+				case *ssa.Field:
+					// a slice-, pointer- or map-valued field of a struct passed by value still points into the
+					// caller's memory
+					if sharesMemory(x.Type()) {
+						src = x.X
+					}
+				case *ssa.UnOp:
+					// a slice, pointer or map loaded through the parameter shares its backing store with it:
+					// append(tok.Lit[:n], ...) writes into the token's literal when the capacity allows
+					if x.Op == token.MUL && sharesMemory(x.Type()) {
+						src = x.X
+					}
 				case *ssa.Phi:
 					for _, e := range x.Edges {
 						if _, ok := der[e]; ok {
@@ -427,10 +458,32 @@ func mutatedParams(fn *ssa.Function) map[int]bool {
 						out[i] = true
 					}
 				}
+				// handed on to a function of the program that writes through that parameter
+				if callee := x.Call.StaticCallee(); callee != nil && len(callee.Blocks) > 0 && !x.Call.IsInvoke() {
+					var cm map[int]bool
+					for ai, a := range x.Call.Args {
+						if i, ok := der[a]; ok {
+							if cm == nil {
+								cm = mutatedParams(callee)
+							}
+							if cm[ai] {
+								out[i] = true
+							}
+						}
+					}
+				}
 			}
 		}
 	}
 	return out
+}
+
+func sharesMemory(t types.Type) bool {
+	switch t.Underlying().(type) {
+	case *types.Slice, *types.Pointer, *types.Map:
+		return true
+	}
+	return false
 }
 
 // locallyAllocated: v stems only from make/new/composite literals of fn.
